@@ -69,6 +69,9 @@ def runMatch (U : UnicodeOps) (kind : String) (a b : Str) : Option String := do
 /-- insertion sort of hex strings (the executor sorts keys as C strings of lower-case hex) -/
 def sortStrings (l : List String) : List String := (l.toArray.qsort (· < ·)).toList
 
+/-- stands for the unknown value (cif_packet_create) among the character tags of the map histories -/
+def unknownTag : Str := [0xfffe, 0xfffe]
+
 /-- a table of character values through `cif_value_serialize` and `cif_value_deserialize` (what storing it in a managed CIF and
     reading it back does) -/
 def throughBlob (es : Entries Str) : Option (Entries Str) :=
@@ -94,13 +97,24 @@ def runMap (U : UnicodeOps) (isTbl : Bool) (ops : List String) : Option String :
     | ["g", k] => do
         let k ← unhex k
         match es.get normGet k CIF_NOSUCH_ITEM with
-        | .ok t => pure (es, s!"g=0/{hex t}" :: out)
+        | .ok t => pure (es, (if t == unknownTag then "g=0/~" else s!"g=0/{hex t}") :: out)
         | .error c => pure (es, s!"g={c}/~" :: out)
     | ["r", k] => do
         let k ← unhex k
         match es.remove normGet k CIF_NOSUCH_ITEM with
         | .ok es' => pure (es', "r=0" :: out)
         | .error c => pure (es, s!"r={c}" :: out)
+    | ["C"] => if isTbl then some (es, "C=0" :: out) else none
+    | ["N", names] =>
+        if isTbl then none else do
+          let ns ← (names.splitOn ",").mapM unhex
+          -- cif_packet_create: every name normalised first (any invalid one: CIF_INVALID_ITEMNAME), then one entry per name holding
+          -- the unknown value; two names of one item: CIF_DUP_ITEMNAME
+          match ns.mapM (fun n => match norm (some n) with | .ok k => some (k, n) | .error _ => none) with
+          | none => pure (es, s!"N={CIF_INVALID_ITEMNAME}" :: out)
+          | some ks =>
+            if (ks.map (·.1)).eraseDups.length != ks.length then pure (es, s!"N={CIF_DUP_ITEMNAME}" :: out)
+            else pure (ks.map (fun p => (p.1, p.2, unknownTag)), "N=0" :: out)
     | ["S"] => if isTbl then (match throughBlob es with | some es' => some (es', "S=0/0" :: out) | none => some (es, "S=MODEL:deserialize" :: out)) else none
     | ["P"] =>
         if isTbl then (match throughBlob es with | some es' => some (es', "P=0/0" :: out) | none => some (es, "P=MODEL:deserialize" :: out))
